@@ -182,6 +182,7 @@ type Conn struct {
 	s      *Sim
 	Name   string
 	rd, wr *Pipe
+	OnClose func() // scenario hook: this end was closed (first Close only)
 	rdl    int64 // read deadline (virtual ns), 0 = none
 	wdl    int64 // write deadline (virtual ns), 0 = none; applies to writes blocked on a full window
 	closed bool
@@ -508,6 +509,9 @@ func (c *Conn) Close() error {
 	c.wr.wclosed = true
 	c.rd.rclosed = true
 	c.s.logEv(EvNetClose, 0, 0)
+	if c.OnClose != nil {
+		c.OnClose()
+	}
 	return nil
 }
 
